@@ -103,6 +103,9 @@ func genClientHSCase(t *rapid.T) ClientHSCase {
 			if name == "Cookie" && rapid.Bool().Draw(t, "twocookies") {
 				c.Header[name] = []string{val, "e=f"}
 			}
+			if name == "Sec-Websocket-Protocol" && rapid.Bool().Draw(t, "twoprotolines") {
+				c.Header[name] = []string{val, "second, third"}
+			}
 		}
 	}
 	r := &c.Reply
@@ -140,7 +143,7 @@ func genClientHSCase(t *rapid.T) ClientHSCase {
 	if ok(3, "accept_ok") {
 		r.Accept = rapid.SampledFrom([]string{"ok", "ok", "ok", "spaces"}).Draw(t, "accept")
 	} else {
-		r.Accept = rapid.SampledFrom([]string{"absent", "truncated", "otherkey", "stale", "trailing", "lower", "upper", "empty", "prefix", "noncanonical", "noncanonical"}).Draw(t, "accept_bad")
+		r.Accept = rapid.SampledFrom([]string{"absent", "truncated", "otherkey", "stale", "trailing", "lower", "upper", "empty", "prefix", "noncanonical", "noncanonical", "second_line_right"}).Draw(t, "accept_bad")
 	}
 	if rapid.IntRange(0, 3).Draw(t, "hasextra") == 0 {
 		r.Extra = []string{"X-Server: test", "Set-Cookie: s=1"}
@@ -499,6 +502,10 @@ func buildReply(r ReplySpec, key, staleKey string, compress bool) (reply, body [
 		}
 	case "empty":
 		acc = ""
+	case "second_line_right":
+		// two Accept lines: the first - "the" header, as Header.Get has it - is the
+		// digest of another key, the right digest follows on a second line
+		acc = wsref.AcceptKey("AAAAAAAAAAAAAAAAAAAAAA==") + "\r\n" + name("Sec-WebSocket-Accept") + ": " + acc
 	}
 	if acc != "\x00" {
 		fmt.Fprintf(&sb, "%s: %s\r\n", name("Sec-WebSocket-Accept"), acc)
